@@ -19,6 +19,9 @@ def jobs(rng, thorough):
 def run(ctx: core.Ctx):
     ctx.lean_stage()
     b2check.run_b2(ctx, jobs, ["C16"], label="lifecycle scenarios")
+    T = core.tables()
+    b2check.run_b2(ctx, lambda rng, th: [(gen.api_close_race(rng, T), rng.randrange(10 ** 9), rng.choice([0, 0, 3])) for _ in range(6000 if th else 150)],
+                   ["C16"], label="YncaApi.close() from a second thread during / after initialize(), monitor only", accept=False)
     ctx.info["rule"] = ("sessions of two caller threads with bursts, a link drop / EOF / write error / close() inserted at a random position, close() from a caller, "
                         "from inside a message callback, from the disconnect callback, repeated and concurrent, then API calls on the dead connection; each under a "
                         "seeded schedule with 0/3/6 extra line-level preemptions; a case = one schedule; non-trivial = distinct (spec, seed)")
